@@ -63,9 +63,10 @@ static void plan_gen(EPlan *P, uint64_t seed, const RunOpts *o) {
     srcs_load();
     memset(P, 0, sizeof *P);
     sim_seed(seed); default_knobs(); K.max_blocks = 3000000000ull;
-    Src *s = &srcs[sim_rndn((uint32_t)nsrcs)];
+    /* consecutive seeds (same worker) share a (program, tool) pair, so that its configuration-0 reference is computed once for 6 configurations */
+    Src *s = &srcs[(seed / 12) % (uint64_t)nsrcs];
     snprintf(P->prog, sizeof P->prog, "%s", s->name);
-    P->tool = (int)sim_rndn(2);
+    P->tool = (int)((seed / 6) % 2);
     Cfg *c = &P->c; cfg_zero(c);
     c->cwd = (int)sim_rndn(4); c->tmpdir = (int)sim_rndn(3); c->envnoise = (int)sim_rndn(40); c->pid = 2 + (int)sim_rndn(4000000);
     c->uid = (int)sim_rndn(70000); c->junk = sim_rndn(4) ? 1 + (int)sim_rndn(255) : 0; c->movere = (int)sim_rndn(2);
